@@ -235,9 +235,10 @@ def r02_1(chk, sg, emit=True):
                "symops" in key_src, found=key_src)
         used = any(e.kind == "test" and "SG_FROM_SYMOPS" in e.value.key() and look.key() in e.value.key() for e in ev.events)
         ret = [e for e in ev.returns if "SpaceGroup(" in e.value.key() or "cls(" in e.value.key()]
-        okret = bool(ret) and ".number" in ret[0].value.key() and "choice=" in ret[0].value.key()
+        others = [e for e in ev.returns if e.value is not None and e not in ret]       # every exit with a value is such a hit
+        okret = bool(ret) and not others and all(".number" in e.value.key() and "choice=" in e.value.key() for e in ret)
         chk.ob("R02.1", SG, "SpaceGroup.from_symmetry_operations", "a hit returns the setting with the stored number and choice; a miss raises",
-               used and okret and any(e.kind == "raise" for e in ev.events), found=str(ret[0].value) if ret else None)
+               used and okret and any(e.kind == "raise" for e in ev.events), found=str((others or ret)[0].value) if ret else None)
         # every LATT number -7 .. 7 is accepted for the expansion (the codes of LATTICE_TYPE_TRANSLATIONS, either sign); only others are refused
         lp = ev.param_names[2] if len(ev.param_names) > 2 else "expand_latt"
         ex = [e for e in ev.events if e.kind == "call" and (call_name(e.value.as_atom() or ()) or "").endswith("expanded_symmetry_list")]
